@@ -22,6 +22,11 @@ type Opts struct {
 	// FullCap gives input i a capacity of len(input i), so that its producer can finish even if
 	// the pipeline deliberately leaves elements unread (Head).
 	FullCap bool
+	// SpinLimit, when set, turns a case whose goroutines are still RUNNING (not parked) after that
+	// long into a "livelock" verdict. This is the one wall-clock criterion in the harness; it is
+	// used only where the statement says "never blocks forever" about inputs of a few dozen bytes
+	// that take microseconds (C19), with a margin of six orders of magnitude.
+	SpinLimit time.Duration
 }
 
 // Result of one execution.
@@ -112,7 +117,12 @@ func Run[T any, R any](ins [][]T, opt Opts, build func([]<-chan T) []<-chan R) R
 	}
 	// Wait for every output to close.  Yield-spinning first (a case usually takes well under a
 	// millisecond and timer sleeps are coarse), then census + sleep.  Time only affects latency.
+	started := time.Now()
 	for spin := 0; atomic.LoadInt32(&done) == 0; spin++ {
+		if opt.SpinLimit > 0 && spin > 3000 && time.Since(started) > opt.SpinLimit {
+			_, rel := base.Verdict()
+			return finish("livelock", fmt.Sprintf("still running after %v, outputs not closed:\n%s", opt.SpinLimit, census.Describe(rel, 4)))
+		}
 		if spin < 3000 {
 			runtime.Gosched()
 			continue
